@@ -100,9 +100,15 @@ pub(crate) fn validate_subscription(
     }
 
     let mut field_names = vec![];
+    // The rule is about the entries of CollectFields: selections with the same response key
+    // (`a a`, or the same field through a fragment) are one entry.
+    let mut response_keys: Vec<&Name> = vec![];
 
     let walked = walk_selections(document, &operation.selection_set, |selection| {
         if let executable::Selection::Field(field) = selection {
+            if !response_keys.contains(&field.response_key()) {
+                response_keys.push(field.response_key());
+            }
             field_names.push(field.name.clone());
             if matches!(field.name.as_str(), "__type" | "__schema" | "__typename") {
                 diagnostics.push(
@@ -135,7 +141,7 @@ pub(crate) fn validate_subscription(
         return;
     }
 
-    if field_names.len() > 1 {
+    if response_keys.len() > 1 {
         diagnostics.push(
             operation.location(),
             executable::BuildError::SubscriptionUsesMultipleFields {
